@@ -338,6 +338,16 @@ def run_C11(case):
                 else:
                     ob = run_op(base.sut, op, refs, base.model)
                     if ob[0] == "raised":
+                        # does an index closed and reopened just before this request fail the same way?
+                        v = Track(cfg, backend)
+                        tracks.append(v)
+                        for j in range(i):
+                            v.apply(ops[j])
+                        v.reopen()
+                        ov = v.apply(op)
+                        res.evals["C11.same_outcome"] += 1
+                        if ov[:2] != ob[:2]:
+                            raise Fail("C11.same_outcome", "op #%d %s: never-closed index %s, index reopened just before it %s" % (i, short(op), short(ob), short(ov)))
                         res.foreign = ("op_exception", "baseline op #%d %s raised %s" % (i, short(op), ob))
                         model_ok = False
                         break
